@@ -210,6 +210,21 @@ impl G<'_> {
                 ]);
                 self.lines.push(l.into());
             }
+            22 | 23 if self.rng.chance(20) => {
+                // signals whose default action is to do nothing (URG, WINCH, CHLD) or to continue (CONT),
+                // sent to the shell itself or to its process group with and without a trap
+                let sig = *self.rng.pick(&["URG", "WINCH", "CHLD", "CONT"]);
+                match self.rng.below(4) {
+                    0 => self.lines.push(format!("kill -s {sig} $$; echo \"after-{sig} st=$?\"")),
+                    1 => self.lines.push(format!("trap 'echo got-{sig}' {sig}; kill -s {sig} $$; echo after-{sig}; trap - {sig}; kill -s {sig} $$; echo again-{sig}")),
+                    2 => self.lines.push(format!("(trap - {sig}; kill -s {sig} 0; echo child-alive-{sig}); echo \"st=$?\"")),
+                    // (not with CHLD: a process that ignores SIGCHLD does not get to wait for its children -
+                    // unspecified for a shell, and the real kernel then reaps them by itself)
+                    _ if sig != "CHLD" => self.lines.push(format!("trap '' {sig}; (trap - {sig}; kill -s {sig} 0; echo child-alive-{sig}); echo \"st=$?\"; trap - {sig}")),
+                    _ => self.lines.push(format!("kill -s {sig} $$; echo \"after-{sig} st=$?\"")),
+                }
+                self.features.push("signals");
+            }
             22 | 23 => {
                 let sig = *self.rng.pick(&["USR1", "USR2", "TERM", "INT", "HUP", "QUIT", "ALRM"]);
                 match self.rng.below(5) {
